@@ -95,26 +95,18 @@ def sync_lockfile(crate_dir):
         shutil.copyfile(src, dst)
 
 
-def build_translator():
-    if not os.path.isdir(TRANSLATOR):
-        return True, ""
-    with Lock("cargo"):
-        sync_lockfile(TRANSLATOR)
-        rc, out = run(["cargo", "build", "--offline", "-q"], cwd=TRANSLATOR)
-    return rc == 0, out
+GRAMMAR_JSON = os.path.join(WORK, "grammar.json")
 
 
 def run_translator():
-    """Regenerates lean/Tx3Model/Gen/*.lean from /repo's working tree.  Files
-    are rewritten only when their content changes, so an unchanged tree
-    rebuilds nothing."""
-    if not os.path.isdir(TRANSLATOR):
-        return True, ""
-    ok, out = build_translator()
-    if not ok:
-        return False, out
+    """Regenerates lean/Tx3Model/Gen/Grammar.lean (and work/grammar.json, which the harness's
+    grammar-driven generator reads) from /repo's tx3.pest.  The Lean file is rewritten only when
+    its content changes, so an unchanged tree rebuilds nothing."""
+    os.makedirs(WORK, exist_ok=True)
     with Lock("lean"):
-        rc, out = run([TRANSLATOR_BIN, REPO, os.path.join(LEAN, "Tx3Model", "Gen")])
+        rc, out = run(["python3", os.path.join(TRANSLATOR, "pest2lean.py"),
+                       os.path.join(REPO, "crates", "tx3-lang", "src", "tx3.pest"),
+                       os.path.join(LEAN, "Tx3Model", "Gen", "Grammar.lean"), GRAMMAR_JSON])
     return rc == 0, out
 
 
